@@ -59,6 +59,9 @@ pub enum Op {
     HRec { key: usize, variant: u8 },
     Describe { kind: u8, name: usize, unit: u8, desc: usize },
     Snapshot,
+    /// a nested local scope of the *other* recorder whose closure panics (caught): afterwards this
+    /// thread's emissions belong to its own recorder again
+    PanicScope,
 }
 
 #[derive(Clone, Debug, Serialize, Deserialize)]
@@ -143,6 +146,9 @@ impl Scenario for C19Debugging {
                     let variant = r.below(3) as u8;
                     if snapshots && r.chance(500) {
                         return Op::Snapshot;
+                    }
+                    if r.chance(60) {
+                        return Op::PanicScope;
                     }
                     match r.below(10) {
                         0..=2 => Op::CInc { key, variant, v: r.range(1, 9) },
@@ -234,6 +240,18 @@ impl Scenario for C19Debugging {
                                     });
                                 }
                                 Op::Snapshot => snap = take_snapshot(&snaps[ri as usize]),
+                                Op::PanicScope => {
+                                    struct ScopePanic;
+                                    let other = &recs[1 - ri as usize];
+                                    let r = std::panic::catch_unwind(std::panic::AssertUnwindSafe(|| {
+                                        metrics::with_local_recorder(other, || std::panic::resume_unwind(Box::new(ScopePanic)))
+                                    }));
+                                    if let Err(p) = r {
+                                        if !p.is::<ScopePanic>() {
+                                            std::panic::resume_unwind(p);
+                                        }
+                                    }
+                                }
                             }
                             let ret = dsim::step();
                             hist.lock().unwrap().push(Ev { rec: ri, tid, inv, ret, op, tag: tag.to_bits(), snap });
